@@ -6,6 +6,9 @@
     front, and with the children omitted altogether; histories compared per node name.
 (c) a monitor written from the property text, evaluated on the real objects (scripts and finished backtests), plus an
     eager twin of every script (strings replaced by constructed securities) compared as a name-indexed map.
+(d) lazy / eager twins of generated trading scripts in which, between setup and the first use of string-named securities, dynamic
+    sub-strategies are attached with parent= and bound with setup_from_parent(**overrides) (`dyn_protocol`): everything the two
+    trees record (positions, cash, bid/offer paid, values, prices, outlays, coupons, transactions) is compared per node name.
 """
 import copy
 import gc
@@ -31,7 +34,12 @@ RULE = ("construction scripts: a root strategy (plain / fixed income) with child
         "corpus first: regression cases of the three repaired defects (eeb6870, 75f3a49, 11b9598) and witnesses of the two known findings. "
         "distinct = (set of node kinds with children mode, depth, set of operation kinds at the top / below and before / after setup, shared objects, "
         "outcome). "
-        "whole runs: gen_runs programs (flat and nested) run lazy / eager / children omitted.")
+        "whole runs: gen_runs programs (flat and nested) run lazy / eager / children omitted. "
+        "dynamic-override twins: hand-driven trading scripts (plain / fixed-income root, optional static sub-strategy, children as strings / lazy_add "
+        "objects of the five classes / omitted; setup with bidoffer / coupons / cost_long / cost_short / free keys; adjust, update, allocate, rebalance, "
+        "transact, close at the root and below) with one or two dynamic sub-strategies attached with parent= at the root or the sub-strategy and bound "
+        "with setup_from_parent(**overrides) (replacing / adding bidoffer, coupons, holding costs, free keys); some declared names are first used only "
+        "after the binding; run lazy and with every security constructed up front.")
 ASSUMPTIONS = [
     "object references are modelled relative to the structure (parent = self or structural parent, root = an ancestor or 'outside'); the harness "
     "reports any other target as a mismatch",
@@ -42,6 +50,9 @@ ASSUMPTIONS = [
     "copies of stale trees); after three of them generation stops",
     "whole-run pairs: children order differs between lazy and eager trees, sums differ by rounding noise: whole-unit positions are compared "
     "exactly, fractional positions, values and prices to 1e-9 relative",
+    "dynamic-override twins: prices, spreads, coupons, amounts and weights are dyadic so that sums do not depend on the order of the children; "
+    "when both runs raise the same error at the same operation the histories are compared after the last completed update before it (a tree left "
+    "in the middle of an update depends on the order of its children)",
 ]
 
 class ScriptTimeout(BaseException):
@@ -1385,6 +1396,7 @@ def gen_dyn(rng):
         ops.append(["D", row])
         if sub and not funded:
             ops.append(["L", [], "s1", 262144.0])
+            ops.append(["D", row])           # a strategy funded on a day without a closing update cannot be updated the day after
             funded = True
         # some trades may come before the dynamic sub-strategy of the day
         for _ in range(rng.choice([0, 0, 1])):
@@ -1407,7 +1419,7 @@ def gen_dyn(rng):
                 trade(list(k), row, force_new=True)
         for _ in range(rng.choice([0, 1, 1, 2])):
             trade(rng.choice(list(names_at)), row)
-        if rng.random() < 0.6:
+        if rng.random() < 0.6 or any(d["row"] == row for d in dyns):
             ops.append(["D", row])
     return {"fi": fi, "integer": integer, "comm": comm, "cols": cols, "px": px, "top": top, "sub": sub, "kw": kw, "ops": ops}
 
@@ -1617,6 +1629,24 @@ def dyn_pair(ctx, bt, spec):
                       % ("completes" if le is None else "raises %s at op %d %r" % (le[1], le[0], spec["ops"][le[0]][:4]),
                          "completes" if ee is None else "raises %s at op %d %r" % (ee[1], ee[0], spec["ops"][ee[0]][:4])), rd)
         return
+    if le is not None:
+        # both runs stop at the same operation with the same error: the trees are left in the middle of an update (how far it got depends on
+        # the order of the children, which is not the same in the two trees).  The histories are compared where the property speaks about
+        # them: after the last completed update before the failing operation
+        last = max([j for j in range(le[0]) if spec["ops"][j][0] == "D"] or [-1])
+        cut = dict(spec, ops=spec["ops"][:last + 1])
+        try:
+            with Budget(30.0):
+                lr, le2, _ = dyn_execute(bt, cut, "lazy")
+                er, ee2, _ = dyn_execute(bt, cut, "eager")
+        except ScriptTimeout:
+            Budget.tripped += 1
+            ctx.violation("C19/dyn-twin:does-not-finish", "the trading script cut before its failing operation did not finish within 30 s", rd)
+            return
+        if le2 is not None or ee2 is not None:
+            ctx.count("dyn:prefix-not-reproducible")
+            return
+        ctx.count("dyn:compared-up-to-last-update-before-error")
     try:
         with Budget(30.0):
             ra, rb = dyn_record(bt, lr), dyn_record(bt, er)
@@ -1693,6 +1723,10 @@ def run(ctx, bt):
 
 def search(ctx, bt):
     """correspondence broke without a monitor failure: more scripts of the kinds that disagreed, twins included"""
+    for _ in range(ctx.scale(100, 1000)):
+        dyn_pair(ctx, bt, gen_dyn(ctx.rng))
+        if ctx.violations:
+            return
     for _ in range(ctx.scale(3000, 20000)):
         sc = gen_script(ctx.rng, ill=ctx.rng.random() < 0.3)
         ctx.evaluations += 1
